@@ -11,7 +11,9 @@ CHECKS = {
     text='TLC enumerates every parent/child combination of the core expression forms in every continuation context '
          '(MC_C01), model-checks the laws of the reference semantics (LawSane, LawShift) on each member, and every '
          'enumerated behaviour (grammar x all short inputs) is replayed into the real generator and parser; seeded '
-         'random deeper grammars (text and bytes mode) are judged by the same specification through Oracle.tla',
+         'random deeper grammars (text and bytes mode) are judged by the same specification through OracleVM.tla; the '
+         'register protocol of the generated code (PegVM) is model-checked to refine the semantics (MC_PegVM, OracleVM) '
+         'and its static flags are compared with those of the real expression objects',
     note='trusted: spec/PegSem.tla + Rx.tla as the documented meaning, TLC, CPython re on the Rx subset; bound: shapes '
          'of depth <= 2 exhaustively (+ random depth 3-4), inputs <= 4-5 characters',
     tech='TLA+ reference semantics (PegSem) enumerated by TLC; behaviours replayed into the implementation'),
@@ -19,10 +21,12 @@ CHECKS = {
     text='TLC enumerates all operator tables of 1-2 (thorough 3) rows over all associativities, colliding spellings, '
          'operand kinds and enclosing contexts (MC_C02) with all token strings up to the bound, checks LawFlatten '
          '(tree read in order = consumed input) in every state, and replays every behaviour; random 3-4 row tables '
-         'with long sentences are judged by the same Pratt-style definition',
+         'with long sentences are judged by the same Pratt-style definition; the shunting-yard machine of '
+         'operator_table.py, transcribed in PegVM (two stacks, commit marker, checkpoints), is model-checked to '
+         'compute that definition on every table and input (LawVMRefines, LawVMFlags, LawVMNoBadState)',
     note='trusted: the Pratt-style definition PegSem!OpExpr as the reading of the property; bound: <= 3 rows '
          'exhaustively, token strings <= 5-6 (+ random up to 14 tokens)',
-    tech='TLA+ Pratt reference (OpExpr/OpLed) vs the shunting-yard implementation, TLC-enumerated behaviours replayed'),
+    tech='TLA+ Pratt reference (OpExpr/OpLed) and TLA+ transcription of the shunting-yard machine (PegVM!OTLoop), refinement checked by TLC; TLC-enumerated behaviours replayed into the implementation'),
  'C03': dict(engine=PEG, cat='model_checking', ref='DESIGN.md §7 C03',
     text='TLC enumerates element x separator x every bound form 0..3 x bounds read from the input (let, class '
          'let-field, template parameter) x all accepted Sep option vectors x enclosing contexts (MC_C03), checks '
@@ -32,20 +36,22 @@ CHECKS = {
  'C04': dict(engine=PEG, cat='model_checking', ref='DESIGN.md §7 C04',
     text='TLC enumerates grammar shapes x ignore sets x declaration variants x entry (MC_C04), model-checks the '
          'lengthening law, and replays every behaviour; rest-capturing regexes and look-behind probes make the '
-         'stopping point of every skip observable',
+         'stopping point of every skip observable; the generated code\'s skip mechanism (skip after literals, _ignored, '
+         'leading skip) transcribed in PegVM is model-checked to compute the meaning (LawVMRefines)',
     note='trusted: the skip clause of PegSem (after every successful string/regex/byte literal anywhere, once before '
          'the start rule); bound: 16 shapes x 3 ignore sets, inputs <= 4-5 characters + hand-picked longer ones',
     tech='TLA+ reference semantics enumerated by TLC; behaviours replayed into the implementation'),
  'C05': dict(engine=PEG, cat='model_checking', ref='DESIGN.md §7 C05',
     text='TLC enumerates binding form x use form x abandon-and-rebind context (MC_C05: choice whose first alternative '
-         'binds and fails, repetition, recursion, shadowing, siblings) on all short inputs and replays every behaviour',
+         'binds and fails, repetition, recursion, shadowing, siblings) x bound name (plain / also a builtin) on all short '
+         'inputs and replays every behaviour, each grammar in two closure spellings',
     note='trusted: environments of PegSem, closed inline-Python repertoire (PyEval/PyCall); bound: 6 binding forms x '
          '10 use forms x 6 contexts',
     tech='TLA+ reference semantics enumerated by TLC; behaviours replayed into the implementation'),
  'C06': dict(engine=PEG, cat='model_checking', ref='DESIGN.md §7 C06',
     text='TLC enumerates call sites (literal, compound, data-dependent, value, keyword, unhashable, nested, recursive, '
          'same template at the same position) x {named, unnamed} (MC_C06), model-checks call = expansion '
-         '(LawExpansion) and replays every behaviour',
+         '(LawExpansion) and replays every behaviour, incl. the curried Python entry points of one-parameter classes',
     note='trusted: substitution semantics of PegSem (closures over the call-site environment); bound: 28 call sites',
     tech='TLA+ reference semantics enumerated by TLC; behaviours replayed into the implementation'),
  'C08': dict(engine=PEG, cat='model_checking', ref='DESIGN.md §7 C08',
